@@ -19,7 +19,7 @@ from ..common import fingerprint, library_raised, same_observable
 from ..tlc import TLCError
 
 PROPS = ["ArgumentsUnchanged", "SameCallTwiceSameResult", "ResultIsNew"]
-SEED_NAMES = ["C1", "C2", "C3", "G1", "G2", "G3", "T1", "T2", "S1", "S2", "M1", "D1", "D2", "W1", "W2", "D3"]
+SEED_NAMES = ["C1", "C2", "C3", "G1", "G2", "G3", "T1", "T2", "S1", "S2", "M1", "D1", "D2", "W1", "W2", "D3", "T3"]
 # the symbol maps handed to every bind call are the caller's objects too: ONE dictionary per kind of call lives through the
 # whole history, carries entries the receiver does not use, and is snapshotted like every live object
 _MAPS = {}
@@ -67,7 +67,8 @@ def make_seeds():
     with warnings.catch_warnings():
         warnings.simplefilter("ignore")
         D3 = MeasurementOutcomeDistribution({(0, 0): 2.0, (0, 1): 6.0, (1, 1): 0.0}, normalize=False)
-    return [C1, C2, C3, G1, G2, G3, T1, T2, S1, S2, M1, D1, D2, W1, W2, D3]
+    T3 = PauliTerm("1*Z0")
+    return [C1, C2, C3, G1, G2, G3, T1, T2, S1, S2, M1, D1, D2, W1, W2, D3, T3]
 
 
 _ISING = []
@@ -132,6 +133,14 @@ def perform(op, a, tmp):
         return a[0] - a[1]
     if op == "p_mul":
         return a[0] * a[1]
+    if op == "p_iadd":
+        x = a[0]
+        x += a[1]
+        return x
+    if op == "p_imul":
+        x = a[0]
+        x *= 2
+        return x
     if op == "p_pow":
         return a[0] ** 2
     if op == "p_simplify":
@@ -242,6 +251,12 @@ def _replay_subtree(ctx, case):
             fails.append(("mutated:map:" + e["op"], "history [%s]: the symbol map passed to the call (it carries entries the receiver does not use, and is reused by the caller) was modified: now %s" % (desc[-600:], {k_: {str(s_): v_ for s_, v_ in m_.items()} for k_, m_ in shared_maps().items()})))
             return False
         changed = [i for i, (x, y) in enumerate(zip(fps, after)) if not same_observable(x, y)]
+        if e["op"] in ("p_iadd", "p_imul"):
+            # the receiver of an augmented assignment is Python's business (and so is every other handle on that very object)
+            for i in changed:
+                if i < len(pool) and pool[i] is pool[e["args"][0] - 1]:
+                    fps[i] = after[i]      # whatever it is now is what later calls of this walk start from
+            changed = [i for i in changed if not (i < len(pool) and pool[i] is pool[e["args"][0] - 1])]
         if changed:
             names = [describe(e["pre"][i]["v"]) if i < len(e["pre"]) else "the operator passed to the query" for i in changed]
             role = ["argument %d" % (e["args"].index(i + 1) + 1) if (i + 1) in e["args"] else "a live object that was not even an argument" for i in changed]
@@ -250,7 +265,7 @@ def _replay_subtree(ctx, case):
         if e["rep"]:
             first = results.get(("last", len(hist)))
             fp = fingerprint(res) if raised is None else ("raised", type(raised).__name__)
-            if first is not None and not same_observable(first, fp):
+            if first is not None and not same_observable(first, fp) and e["op"] not in ("p_iadd", "p_imul"):     # an in-place receiver legitimately accumulates
                 fails.append(("repeat:" + e["op"], "history [%s]: the same call on the same arguments gave a different result the second time" % desc))
                 return False
         else:
@@ -285,7 +300,7 @@ def run(ctx):
     quick = ctx.tier == "quick"
     mc = 2 if quick else 3
     sel = "<-OpAll"
-    ctx.bounds = {"MaxCalls": mc, "operations": 41, "seeds": len(SEED_NAMES), "note": "thorough: depth 3 over a reduced operation set"}
+    ctx.bounds = {"MaxCalls": mc, "operations": 43, "seeds": len(SEED_NAMES), "note": "thorough: depth 3 over a reduced operation set"}
     consts = dict(MaxCalls=mc, OpSel=sel if quick else "{1, 3, 4, 9, 11, 15, 17, 19, 26, 27, 30, 31, 32, 33, 35, 38, 40}", Emitting=True)
     res = ctx.tlc("ValueSemantics", constants=consts, invariants=["WellTyped"], properties=PROPS, action_constraints=["Emit"], coverage=False, timeout=3000)
     edges = res.emitted
@@ -297,7 +312,7 @@ def run(ctx):
         raise TLCError("ValueSemantics exported only %d calls" % len(edges))
     tree = Tree(edges)
     _TREE[0] = tree
-    init = [{"k": k, "v": {"o": n, "a": []}} for k, n in zip(["circ"] * 3 + ["gate"] * 3 + ["pauli"] * 4 + ["meas"] + ["dist"] * 2 + ["wf"] * 2 + ["udist"], SEED_NAMES)]
+    init = [{"k": k, "v": {"o": n, "a": []}} for k, n in zip(["circ"] * 3 + ["gate"] * 3 + ["pauli"] * 4 + ["meas"] + ["dist"] * 2 + ["wf"] * 2 + ["udist"] + ["pauli"], SEED_NAMES)]
     first = tree.out.get(json.dumps([init, {"n": 0, "ev": {"op": "none", "args": [], "res": 0, "rep": False}}], sort_keys=True), [])
     if len(first) < 50:
         raise TLCError("only %d first-level calls found in the exported graph" % len(first))
